@@ -4,7 +4,7 @@
    (pair code in 64 bit, LUT widening, crop by logical-or) the code computes no label in a fixed
    width; the dtype-dependence of the implementation is decided by correspondence. *)
 From Pan Require Import Base.Common Base.Rnd64 Model.MetricTable Model.Metrics Model.Matcher Model.EdgeCase Model.Result Model.Relabel Model.Pipeline
-  Proofs.Matching Proofs.MatcherQ Proofs.C04Proofs Proofs.Invariance Proofs.ResultEquiv Proofs.RenameInvariance Proofs.RenameUnmatched.
+  Proofs.Matching Proofs.MatcherQ Proofs.C04Proofs Proofs.Invariance Proofs.ResultEquiv Proofs.RenameInvariance Proofs.RenameUnmatched Proofs.RenameMerge.
 Open Scope Z_scope.
 
 (* every per-pair overlap metric is unchanged by the renaming *)
@@ -80,6 +80,19 @@ Theorem C09_unmatched_input_pipeline_invariant : forall sr sp a x x' c,
     (c_matcher c =? 2) (cand_list x (c_mmetric c) a) ->
   res_rel result_equiv (pipeline x c a) (pipeline x' c (rename sr sp a)).
 Proof. exact pipeline_naive_rename. Qed.
+
+(* unmatched input, merge matcher: no two candidates may be equally good (then the candidates are visited in the same order and
+   every merge decision is taken on the same combined scores); [x_union]: combined score of a reference against a list of predictions *)
+Theorem C09_unmatched_input_merge_matcher_pipeline_invariant : forall sr sp a x x' c,
+  nonneg_arr a -> nonneg_arr (rename sr sp a) -> c_matcher c = 3 ->
+  inj_on sr (0 :: map fst a) -> inj_on sp (0 :: map snd a) -> sr 0 = 0 -> sp 0 = 0 ->
+  (forall rp, In rp (overlap_pairs a) -> x_pair x' (sr (fst rp), sp (snd rp)) = x_pair x rp) ->
+  (forall m l, In l (ref_labels_of a) -> x_inst x' m (sr l) = x_inst x m l) ->
+  (forall r ps, In r (ref_labels_of a) -> incl ps (pred_labels_of a) -> x_union x' (sr r) (map sp ps) = x_union x r ps) ->
+  (forall cd, In cd (cand_list x (c_mmetric c) a) -> fst cd = x_union x (cref cd) [cpred cd]) ->
+  strict_scores (better_eq (decreasing (c_mmetric c))) (cand_list x (c_mmetric c) a) ->
+  res_rel result_equiv (pipeline x c a) (pipeline x' c (rename sr sp a)).
+Proof. exact pipeline_merge_rename. Qed.
 
 (* non-vacuity of the pipeline theorem: a pair with two matches, a rejected candidate and a spurious prediction;
    reference labels 1,2 -> 70000,255, prediction labels 1,2,3 -> 3,16777215,1 *)
